@@ -287,6 +287,11 @@ pub fn run(tier: Tier, seed: u64) -> i32 {
     for m in [1u32 << 31, 0x0000_FFFF, 0xFFFF_0000, 0x5555_5555, 0xAAAA_AAAA, u32::MAX - 1, u32::MAX >> 1] {
         targets.push((family_member(m), "T in family"));
     }
+    for k in [8usize, 16, 24] {
+        let mut t = [0u8; 32];
+        t[k] = 1;
+        targets.push((t, "T = 2^(8k): zero low limbs"));
+    }
     targets.push((refmodel::ctr_array::<32>(seed, "c04-T").map(|b| b & 0x7F), "T general"));
     let mut own_b = 0u64;
     for (t, name) in &targets {
@@ -351,11 +356,11 @@ pub fn run(tier: Tier, seed: u64) -> i32 {
         Some(k) => k,
         None => return report.finish(),
     };
-    let a_alpha: Vec<[u8; 32]> = vec![le32_from_u64(1), le32_from_u64(2), le32_from_u64(5), le32_from_u64(250), refmodel::ctr_array::<32>(seed, "c04-a")];
+    let a_alpha: Vec<[u8; 32]> = vec![le32_from_u64(1), le32_from_u64(2), le32_from_u64(5), le32_from_u64(64), le32_from_u64(128), le32_from_u64(250), refmodel::ctr_array::<32>(seed, "c04-a")];
     let own_a = AtomicU64::new(0);
     let own_a_zero = AtomicU64::new(0);
     let inconclusive = AtomicU64::new(0);
-    let gens: Vec<u8> = if tier == Tier::Thorough { (2..=255).collect() } else { vec![2, 3, 5, 7, 11, 13, 183, 250, 251, 255] };
+    let gens: Vec<u8> = if tier == Tier::Thorough { (2..=255).collect() } else { vec![2, 3, 4, 5, 7, 11, 13, 16, 183, 250, 251, 255] };
     mods.par_iter().for_each(|(mname, m)| {
         let m_le = m.to_le_padded::<32>();
         for &g in &gens {
